@@ -24,6 +24,8 @@ PROPS['C04'] = {
         '(*hashmap.HashMap).Value', '(*hashmap.HashMap).PutValue', '(*hashmap.HashMap).rehash', 'hashmap.NewHashMap',
         'tree.NewEdgeIndex', '(*tree.EdgeIndex).AddEdgeCount',
         '(*tree.Tree).computeEdgeHashesRightRecur', '(*tree.Tree).computeEdgeHashesLeftRecur',
+        ('(*tree.Tree).ReinitIndexes', {'match': [r'^callsite', r'^post']}), ('(*tree.Tree).ReinitInternalIndexes', {'match': [r'^callsite']}),
+        ('(*tree.Tree).ComputeEdgeHashes', {'match': [r'^callsite']}),
         ('(*tree.Tree).fillRightBitSet', {'match': [r'^callsite', r'^post', r'^inv']}), ('(*tree.Tree).UpdateBitSet', {'match': [r'^callsite']}),
         ('(*tree.Tree).tipEdgesRecur', {'match': [r'^post', r'^inv']}), ('(*tree.Tree).TipEdges', {'match': [r'^post', r'^inv']}),
         ('(*tree.Tree).edgesRecur', {'match': [r'^post', r'^inv']}), ('(*tree.Tree).internalEdgesRecur', {'match': [r'^post', r'^inv']}), ('(*tree.Tree).InternalEdges', {'match': [r'^post', r'^inv']}),
